@@ -9,7 +9,7 @@
 # caches) and lives outside /repo and /verif; remove it with `tools/try_seed.sh --clean`.
 set -u
 HERE=$(cd "$(dirname "$0")/.." && pwd)
-W=/var/tmp/verif-seed
+W=${VERIF_SEED_DIR:-/var/tmp/verif-seed}
 if [ "${1:-}" = "--clean" ]; then rm -rf "$W"; exit 0; fi
 SEED=$(cd "$1" && pwd)
 TIER=${2:-quick}
